@@ -6,6 +6,8 @@ counts are defined next to the generators.
 """
 import itertools
 import random
+
+import stages
 from fractions import Fraction as Fr
 
 from caselib import Case, E, Sc
@@ -1089,7 +1091,9 @@ PROPS = {
               "grids: duplicate/descent/outlier at every position of sequences of length 0..5 (quick) / 0..6; supports: every index "
               "pair from 0..n+2 and 2^64-1 on grids of 2..4 / 2..5 points; splines: every coefficient count against every window; "
               "generator: empty, single, constant, descending, non-monotone and valid knot vectors x orders x both routes; "
-              "linearCombination: every count pair 0..4; interpolation: count mismatches and boundary derivative orders 0..4", exhaustive=True),
+              "linearCombination: every count pair 0..4; interpolation: count mismatches and boundary derivative orders 0..4; double tier: "
+              "NaN, +inf, -inf at every position of sequences of length 1..5/6 for Grid<double> and BSplineGenerator<double>, compared "
+              "with the model at the IEEE comparison structure ext", exhaustive=True, extra_stages=[stages.stage_fp_valid]),
     'C12': _p(gen_C12, nontrivial_C12,
               "interpolate<Arch, order, exact recording solver>: orders 1..4 (quick) / 1..5, 2..8 nodes as windows of a larger grid, "
               "uniform / irregular / tiny / offset spacing, default and random user boundary sets; the assembled dense system M, b is "
